@@ -132,6 +132,39 @@ func isRefLike(t types.Type) bool {
 }
 
 // assumeAllocated records that a value read from the outside world refers to allocated objects only.
+const (
+	minInt64 = "(- 9223372036854775808)"
+	maxInt64 = "9223372036854775807"
+	maxLen   = "72057594037927936" // 2^56: no Go object has more elements than the address space allows
+)
+
+// intRange: machine range of an integer type (64-bit platform), or "" when not an integer type.
+func intRange(typ types.Type) (lo, hi Term, ok bool) {
+	b, isB := types.Unalias(typ).Underlying().(*types.Basic)
+	if !isB || b.Info()&types.IsInteger == 0 {
+		return "", "", false
+	}
+	switch b.Kind() {
+	case types.Int, types.Int64, types.UntypedInt:
+		return minInt64, maxInt64, true
+	case types.Int32, types.UntypedRune:
+		return "(- 2147483648)", "2147483647", true
+	case types.Int16:
+		return "(- 32768)", "32767", true
+	case types.Int8:
+		return "(- 128)", "127", true
+	case types.Uint, types.Uint64, types.Uintptr:
+		return "0", "18446744073709551615", true
+	case types.Uint32:
+		return "0", "4294967295", true
+	case types.Uint16:
+		return "0", "65535", true
+	case types.Uint8:
+		return "0", "255", true
+	}
+	return "", "", false
+}
+
 func (vc *VC) assumeAllocated(st *State, t Term, typ types.Type) {
 	if typ == nil {
 		return
@@ -140,10 +173,12 @@ func (vc *VC) assumeAllocated(st *State, t Term, typ types.Type) {
 	case "Int":
 		if isRefLike(typ) {
 			st.assume = append(st.assume, app("<=", t, vc.top(st)), app(">=", t, "0"))
+		} else if lo, hi, ok := intRange(typ); ok {
+			st.assume = append(st.assume, app("<=", lo, t), app("<=", t, hi))
 		}
 	case "Slice":
 		st.assume = append(st.assume, app("<=", app("sid", t), vc.top(st)), app(">=", app("sid", t), "0"), app(">=", app("slen", t), "0"), app(">=", app("soff", t), "0"),
-			implies(eq(app("sid", t), "0"), eq(app("slen", t), "0")))
+			implies(eq(app("sid", t), "0"), eq(app("slen", t), "0")), app("<=", app("slen", t), maxLen), app("<=", app("soff", t), maxLen))
 	case "Iface":
 		st.assume = append(st.assume, implies(not(eq(t, "iface_nil")), app("<=", app("pl", t), vc.top(st))))
 	}
@@ -1270,11 +1305,14 @@ func (vc *VC) execBinOp(st *State, x *ssa.BinOp) {
 			t = app("str_cat", a.T, b.T)
 		} else {
 			t = app("+", a.T, b.T)
+			vc.overflowCheck(st, t, x)
 		}
 	case token.SUB:
 		t = app("-", a.T, b.T)
+		vc.overflowCheck(st, t, x)
 	case token.MUL:
 		t = app("*", a.T, b.T)
+		vc.overflowCheck(st, t, x)
 	case token.QUO:
 		vc.safety(st, not(eq(b.T, "0")), "div-by-zero", x)
 		t = app("div", a.T, b.T)
@@ -1285,6 +1323,21 @@ func (vc *VC) execBinOp(st *State, x *ssa.BinOp) {
 		t = vc.d.freshConst("binop", sortOf(x.Type()))
 	}
 	st.vals[x] = Val{T: t, Typ: x.Type()}
+}
+
+// overflowCheck: machine integers are checked, not assumed, to stay in range (closes assumption A-INT for the
+// arithmetic the verified functions perform).
+func (vc *VC) overflowCheck(st *State, t Term, x *ssa.BinOp) {
+	lo, hi, ok := intRange(x.Type())
+	if !ok {
+		return
+	}
+	if _, c1 := x.X.(*ssa.Const); c1 {
+		if _, c2 := x.Y.(*ssa.Const); c2 {
+			return
+		}
+	}
+	vc.safety(st, and(app("<=", lo, t), app("<=", t, hi)), "overflow@"+x.Op.String(), x)
 }
 
 func (vc *VC) execTypeAssert(st *State, x *ssa.TypeAssert) {
